@@ -218,4 +218,20 @@ TEXT = {
         "technique": "Lean 4 reachability proof over a call/effect graph regenerated from source + counting "
                      "allocator + no-std/no-alloc build",
     },
+    "C07": {
+        "level": "Proof: generation under ANY generator configuration (low-memory buckets; naive/SSE2/SSSE3/AVX2 "
+                 "aggregation with any content of the undefined registers; debug assertions; unsafe) equals the "
+                 "reference algorithm, hence all configurations agree (generate_any_cfg_eq_spec, "
+                 "generate_cfg_irrelevant); the aggregation and body-distance kernels are the ones REGENERATED from "
+                 "the Rust source and every candidate the run-time dispatcher can install equals the naive / "
+                 "pseudo-SIMD function (aggregation_dispatch_any, distance_dispatch_any), so the value cached by "
+                 "OnceLock is the same whichever thread wins; all comparison, parser and formatter configurations "
+                 "agree (compare/parse/format_cfg_irrelevant); double Pearson table by definition + exhaustive "
+                 "compiled-table sweep. Correspondence: one seeded corpus in 11 configurations, each vs its model "
+                 "and transcripts diffed pairwise; every compiled back end via hooks; first-call races.",
+        "note": COMMON_NOTE + " bv_decide in kernel lemmas; OnceLock / CPU feature detection by contract; nightly-"
+                "only and non-x86 back ends out of reach.",
+        "technique": "Lean 4 proof (every cfg = configuration-free spec; kernels translated from source, bv_decide) "
+                     "+ 11-configuration differential replay with pairwise transcript diff",
+    },
 }
